@@ -43,7 +43,8 @@ def stepLine (s : Mem × Etcd) (ws : List String) : (Mem × Etcd) × String :=
   | _ => match parseOp ws with
     | some op =>
       let (m', om) := stepM s.1 op
-      let (e', oe) := stepE s.2 op
+      -- `stepE` with etcd's default limits (= `stepE` whenever the snapshot fits: `C17.limited_step_eq`)
+      let (e', oe) := stepEL etcdDefaults false s.2 op
       ((m', e'), s!"M={showOut om} E={showOut oe}")
     | none => (s, "bad-op")
 
